@@ -24,6 +24,7 @@ def model_check(ctx):
         "tolerance records (conductivity, sources, non-uniform grids, random float data, full anisotropic tensors): max |backward(forward(s)) - s| <= 1e-11 * max(|s|, |forward(s)|), at every time step index of the run",
         "conductivity bounded so that c*sigma*eta0*inv_eps/2 <= 0.6 (the reverse update divides by 1 - that number)",
         "backward() is called with an empty Recorder (no absorbing layers) and reset_fields=False",
+        "material arrays with different component counts (1/3-component inv_eps, inv_mu, electric and magnetic conductivity in all mixtures) by direct replacement and through Material(scalar, tuple) objects; H-injecting sources with gapped switches are stepped at every step incl. the final one",
     ]
 
 
@@ -99,27 +100,46 @@ def gen_cases(ctx):
         if flavour == "tensor":
             cfg["tensor"] = rng.randrange(10**6)
         cases.append({"id": f"t-{flavour}{n}-{'x'.join(map(str, shape))}-k{'.'.join(map(str, kinds))}", "mode": "tol", "cfg": cfg, "seed": rng.randrange(10**6)})
+    # H-injecting sources (magnetic dipole, TFSF plane) with non-default switches, stepped forward/backward at EVERY step
+    # of the run: steps whose successor is off, isolated on-steps, and the final step of the run
+    hs = [("mdipole", {"fixed_on_time_steps": [1, 2, 3, 6, 7]}), ("plane", {"interval": 2}), ("mdipole", {"start_after_periods": 0.4, "period": 2e-16}),
+          ("gauss", {"fixed_on_time_steps": [0, 3, 4, 7]}), ("mdipole", {"interval": 3}), ("plane", {"fixed_on_time_steps": [2, 5, 7]})]
+    for n, (kind, sw) in enumerate(hs if not ctx.quick else hs[:3]):
+        shape = [[4, 3, 3], [3, 3, 4], [3, 4, 2]][n % 3]
+        nn = 3 * shape[0] * shape[1] * shape[2]
+        src = {"kind": kind, "switch": sw, "saf": 1.5, "amp": 2.0, "wl": 400e-9, "name": "h0", "profile": ["single", "gauss"][n % 2]}
+        if kind == "mdipole":
+            src["pos"], src["pol"] = [1, 1, 1], n % 3
+        else:
+            src["axis"], src["at"], src["dir"], src["pol"] = 2, 1, "+", 0
+        cfg = {"shape": shape, "kinds": [1, 1, [1, 9, 12][n % 3]], "T": 8, "sources": [src],
+               "fie": [rng.uniform(0.3, 1.0) for _ in range(nn)], "fim": [rng.uniform(0.3, 1.0) for _ in range(nn)]}
+        cases.append({"id": f"t-hsource{n}-{kind}-{'x'.join(map(str, shape))}", "mode": "tol", "cfg": cfg, "seed": rng.randrange(10**6)})
+    # material arrays with different component counts (isotropic eps / mu with diagonal conductivities and vice versa)
+    combos = [(1, 3, 1, 3), (3, 1, 3, 1), (1, 3, 3, 1), (3, 1, 1, 3), (1, 1, 1, 3), (1, 3, 1, 1)]
+    for n in range(4 if ctx.quick else 3 * len(combos)):
+        ie_n, sig_n, im_n, sigm_n = combos[n % len(combos)]
+        shape = [rng.randint(3, 4), rng.randint(2, 4), rng.randint(2, 3)]
+        rng.shuffle(shape)
+        kinds = [1, 1, 1] if n % 2 == 0 else Y.random_kinds(rng)
+        cells = shape[0] * shape[1] * shape[2]
+        small = n % 3
+
+        def sig():
+            out = []
+            for comp in range(3):
+                out += [rng.uniform(0.0, 0.05) if comp == small else rng.uniform(0.0, 2.4) for _ in range(cells)]
+            return out
+
+        cfg = {"shape": shape, "kinds": kinds, "T": 5, "comp": {"ie": ie_n, "sig": sig_n, "im": im_n, "sigm": sigm_n},
+               "fie": [rng.uniform(0.25, 1.0) for _ in range(3 * cells)], "fim": [rng.uniform(0.3, 1.0) for _ in range(3 * cells)], "fsig": sig(), "fsigm": sig()}
+        cases.append({"id": f"t-counts{n}-eps{ie_n}sig{sig_n}mu{im_n}sigm{sigm_n}-{'x'.join(map(str, shape))}-k{'.'.join(map(str, kinds))}", "mode": "tol", "cfg": cfg, "seed": rng.randrange(10**6)})
+    slabs = [{"eps": 2.0, "sigma": [2e3, 1.0e5, 1.5e5]}, {"eps": [2.0, 3.0, 4.0], "sigma": 1.0e5}, {"eps": 2.0, "mu": [1.0, 2.0, 1.5], "sigma": [1e5, 4e3, 1e5], "sigma_m": 1.0e10}]
+    for n, sl in enumerate(slabs if not ctx.quick else slabs[:2]):
+        shape = [rng.randint(3, 4), rng.randint(3, 4), rng.randint(2, 3)]
+        cfg = {"shape": shape, "kinds": [1, 1, 1] if n % 2 == 0 else Y.random_kinds(rng), "T": 5, "slab": dict(lo=[0, 0, 0], hi=list(shape), **sl)}
+        cases.append({"id": f"t-pipeline-material{n}-{'x'.join(map(str, shape))}", "mode": "tol", "cfg": cfg, "seed": rng.randrange(10**6)})
     return cases
-
-
-def _full_tensor(cfg, arrays, seed):
-    """symmetric positive definite full 3x3 inverse permittivity / permeability (9 components, lossless)"""
-    import jax.numpy as jnp
-    import numpy as np
-
-    rs = np.random.RandomState(seed)
-    shape = tuple(cfg["shape"])
-
-    def spd():
-        a = rs.uniform(-0.15, 0.15, size=(3, 3, *shape))
-        m = 0.5 * (a + np.transpose(a, (1, 0, 2, 3, 4)))
-        for i in range(3):
-            m[i, i] = rs.uniform(0.4, 1.0, size=shape)
-        return m.reshape(9, *shape)
-
-    arrays = arrays.aset("inv_permittivities", jnp.asarray(spd()))
-    arrays = arrays.aset("inv_permeabilities", jnp.asarray(spd()))
-    return arrays
 
 
 def observe(case):
@@ -133,7 +153,7 @@ def observe(case):
     rs = np.random.RandomState(case["seed"])
     obj, arrays, config = Y.build(cfg)
     if cfg.get("tensor") is not None:
-        arrays = _full_tensor(cfg, arrays, cfg["tensor"])
+        arrays = Y.full_tensor(cfg, arrays, cfg["tensor"])
     fwd, bwd, arrays, config = Y.steppers(obj, arrays, config, with_backward=True)
     dt = Y.field_dtype(arrays)
     vf, vb = jax.vmap(fwd), jax.vmap(bwd)
@@ -179,6 +199,7 @@ def observe(case):
             rec["mons"].append({"name": f"backward(forward(s)) differs from s at time step {step}", "d": Y.scaled(worst), "two": True})
             E, H = E1, H1   # continue the run from the forward state
         rec["n_sources"] = len(cfg.get("sources", []))
+        rec["component_counts"] = Y.component_counts(arrays)
     return rec
 
 
